@@ -104,7 +104,14 @@ def make_spec(g):
     pattern = r.choice(PATTERNS)
     skipped = sorted(set([t for t in tests if r.random() < 0.2] + force_skip))
     ncalls = {t: r.choice([1, 1, 2]) for t in tests}
-    return dict(tests=tests, pattern=pattern, skipped=skipped, ncalls=ncalls,
+    # a test may take some of its snapshots and call snaps.Skip* only then (a conditional skip in the middle
+    # of a flow): the slots it did not reach keep the protection
+    partial = {}
+    for t in skipped:
+        if r.random() < 0.4:
+            ncalls[t] = r.choice([2, 3])
+            partial[t] = r.randint(1, ncalls[t] - 1)
+    return dict(tests=tests, pattern=pattern, skipped=skipped, ncalls=ncalls, partial=partial,
                 mode=r.choice([(False, 'clean'), (False, 'true'), (False, ''), (True, 'clean')]),
                 sort=r.choice(['-', '0', '1']), second_file=r.random() < 0.5, shuffle=r.randrange(1 << 30),
                 second_name=r.choice(['custom'] + GOFILE_NAMES) if r.random() < 0.6 else 'custom',
@@ -160,6 +167,9 @@ def render(tag, spec):
         if t in skip_calls:
             texec += 1
             w.add('begin %d %s' % (texec, hx(t)))
+            cfg = 2 if (spec['second_file'] and t.startswith('TestB')) else 1
+            for k in range(1, spec.get('partial', {}).get(t, 0) + 1):
+                w.add('snap %d %d %s' % (cfg, texec, hx('v-%s-%d' % (t, k))), ('prepared-entry-passes', exp_silent))
             w.add('skip %d %s' % (texec, rr.choice(['skip', 'skipf', 'skipnow'])))
         elif runs[t]:
             texec += 1
@@ -209,7 +219,8 @@ def render(tag, spec):
                 tid = '%s - %d' % (t, k)
                 if pa not in after or (pa.decode('utf-8', 'replace') + '\n') in out:
                     ww.meta['cls'] = 'D6' if (p == '' and all(protected(x) or not selected[x] for x, _ in ents)) else 'D8'
-                    if rule_protects:
+                    if rule_protects or any(spec.get('partial', {}).get(x, 0) > 0 and x in skip_calls for x, _ in ents):
+                        # (a test that took a snapshot before skipping registered the file: D6/D8 do not apply)
                         ww.meta['cls'] = None
                     elif p != '' and gofuncs is not None and all(protected(x) or not selected[x] for x, _ in ents):
                         # the Go file is found and -run selects one of its functions, but every selected
